@@ -154,6 +154,145 @@ var hostileNames = []hostileName{
 	fixed("upload-sibling", "../upload/x"), fixed("cache-sibling", "../cache/x"), fixed("db-sibling", "../db/kraken.db"),
 }
 
+// ---- format-mimicking traversals -------------------------------------------
+//
+// Names that look like the identifier a slot normally carries (upload uuid,
+// 64-hex digest, repo:tag) but contain dot segments / separators, so that a
+// "looks like a uuid/digest, skip the checks" shortcut is exercised. All are
+// PRNG-built: different seeds give different names.
+
+const hexChars = "0123456789abcdef"
+
+func randHex(r *rand.Rand, n int) string {
+	b := make([]byte, n)
+	for i := range b {
+		b[i] = hexChars[r.Intn(16)]
+	}
+	return string(b)
+}
+
+// overlay writes piece into b at pos when it fits without touching a fixed
+// position (uuid dashes); it reports whether it did.
+func overlay(b []byte, fixed map[int]bool, pos int, piece string) bool {
+	if pos < 0 || pos+len(piece) > len(b) {
+		return false
+	}
+	for i := range piece {
+		if fixed[pos+i] {
+			return false
+		}
+	}
+	copy(b[pos:], piece)
+	return true
+}
+
+var traversalPieces = []string{"../", "../../", "/../", "/..", "..", "/", "./", "../x/", "a/../../", "..//"}
+var siblingPrefixes = []string{"../cache", "../upload", "../db", "../data", "../l3", "../../x"}
+
+// uuidShaped: length 36, '-' at 8/13/18/23, everything else hex except for
+// traversal pieces laid over the non-dash positions.
+func uuidShaped(r *rand.Rand) string {
+	b := []byte(randHex(r, 36))
+	fixed := map[int]bool{8: true, 13: true, 18: true, 23: true}
+	for i := range fixed {
+		b[i] = '-'
+	}
+	switch r.Intn(6) {
+	case 0: // leading traversal
+		overlay(b, fixed, 0, []string{"../", "../../", "/", "./", "../.."}[r.Intn(5)])
+	case 1: // sibling directory whose name continues into the uuid
+		p := siblingPrefixes[r.Intn(len(siblingPrefixes))]
+		if len(p) > 8 {
+			p = p[:8]
+		}
+		overlay(b, fixed, 0, p)
+	case 2: // trailing traversal
+		t := []string{"/..", "/../..", "/.", "/", "/../../.."}[r.Intn(5)]
+		overlay(b, fixed, 36-len(t), t)
+	case 3: // traversal in the last (12 char) group
+		t := []string{"/../../", "/../x", "a/../../..", "/..//"}[r.Intn(4)]
+		overlay(b, fixed, 24+r.Intn(12-len(t)+1), t)
+	case 4: // leading and trailing
+		overlay(b, fixed, 0, "../")
+		overlay(b, fixed, 33, "/..")
+	default: // a few random pieces anywhere they fit
+		for k := 1 + r.Intn(3); k > 0; k-- {
+			overlay(b, fixed, r.Intn(36), traversalPieces[r.Intn(len(traversalPieces))])
+		}
+		if !strings.ContainsAny(string(b), "/.") {
+			overlay(b, fixed, 0, "../")
+		}
+	}
+	return string(b)
+}
+
+// hexShaped: 64 characters, hex except for embedded traversal pieces.
+func hexShaped(r *rand.Rand) string {
+	b := []byte(randHex(r, 64))
+	none := map[int]bool{}
+	switch r.Intn(4) {
+	case 0:
+		overlay(b, none, 0, []string{"../", "../../", "/", "../cache/", "../../../"}[r.Intn(5)])
+	case 1:
+		t := []string{"/..", "/../..", "/../../data"}[r.Intn(3)]
+		overlay(b, none, 64-len(t), t)
+	case 2:
+		overlay(b, none, 2+r.Intn(50), []string{"/../", "/../../", "/../../../"}[r.Intn(3)])
+	default:
+		// looks sharded: ab/cd/<hex> but climbs out
+		overlay(b, none, 0, "../")
+		overlay(b, none, 5, "/../")
+		overlay(b, none, 61, "/..")
+	}
+	return string(b)
+}
+
+func realUUID(r *rand.Rand) string {
+	return randHex(r, 8) + "-" + randHex(r, 4) + "-" + randHex(r, 4) + "-" + randHex(r, 4) + "-" + randHex(r, 12)
+}
+
+// mimicName picks a format-mimicking traversal for the slot.
+func mimicName(r *rand.Rand, slot string) hostileName {
+	mk := func(id, v string) hostileName { return hostileName{"mimic-" + id + ":" + v, func(*session) string { return v }} }
+	sidecars := []string{"_persist", "data", "_torrentmeta", "_last_access_time", "_refcount"}
+	tag := validTags[r.Intn(len(validTags))]
+	kinds := []string{"uuid", "hex", "uuid-affix", "hex-affix", "tag-affix", "sidecar"}
+	var k string
+	switch slot {
+	case "uid":
+		k = []string{"uuid", "uuid", "uuid", "uuid-affix", "sidecar", "hex"}[r.Intn(6)]
+	case "digest":
+		k = []string{"hex", "hex", "hex-affix", "uuid", "sidecar"}[r.Intn(5)]
+	case "tag", "repo", "*":
+		k = []string{"uuid", "uuid", "hex", "tag-affix", "tag-affix", "sidecar", "uuid-affix"}[r.Intn(7)]
+	default:
+		k = kinds[r.Intn(len(kinds))]
+	}
+	switch k {
+	case "uuid":
+		return mk("uuid-shaped", uuidShaped(r))
+	case "hex":
+		v := hexShaped(r)
+		if slot == "digest" && r.Intn(2) == 0 {
+			v = "sha256:" + v
+		}
+		return mk("hex64-shaped", v)
+	case "uuid-affix":
+		u := realUUID(r)
+		return mk("uuid-affix", []string{"../" + u, u + "/..", u + "/../..", "../../" + u, u + "/../../data", "./" + u, u + "/"}[r.Intn(7)])
+	case "hex-affix":
+		h := randHex(r, 64)
+		v := []string{"../" + h, h + "/..", h + "/../../x", h[:2] + "/" + h[2:4] + "/../../../" + h, "sha256:../" + h[3:]}[r.Intn(5)]
+		return mk("hex64-affix", v)
+	case "tag-affix":
+		return mk("tag-affix", []string{"../" + tag, tag + "/..", tag + "/../..", "../../" + tag, "repo/../../" + tag, tag + "/../../data"}[r.Intn(6)])
+	default: // sidecar shapes on identifier-like names
+		sc := sidecars[r.Intn(len(sidecars))]
+		base := []string{realUUID(r), randHex(r, 64), "..", "../" + realUUID(r)[:8]}[r.Intn(4)]
+		return mk("sidecar-shaped", base+"/"+sc)
+	}
+}
+
 var encodings = []string{"raw", "escape", "full", "fulllower", "double", "dotsonly", "slashonly", "mixed"}
 
 func pct(b byte, upper bool) string {
@@ -430,9 +569,9 @@ func (s *session) start(bin string) error {
 	if s.writeThrough {
 		args = append(args, "-writethrough")
 	}
-	c, err := proc.Start(proc.Opts{Dir: s.cwd, Trace: "%file,fsync,fdatasync", Log: s.log, Env: []string{"TMPDIR=" + s.tmp},
-		// durability is not what C11 judges: let fsync succeed without hitting the disk
-		Inject: "fsync,fdatasync:retval=0"}, bin, args...)
+	c, err := proc.Start(proc.Opts{Dir: s.cwd, Trace: "%file", Log: s.log, Env: []string{"TMPDIR=" + s.tmp},
+		// only file syscalls stop the server; everything else runs untraced
+		SeccompBPF: true}, bin, args...)
 	if err != nil {
 		return err
 	}
@@ -538,6 +677,10 @@ func (s *session) genRequest() (*reqRecord, [][2]string, []byte) {
 		// the defect class everyone expects first gets extra weight
 		if s.r.Intn(6) == 0 {
 			hn = hostileNames[s.r.Intn(2)]
+		}
+		// format-mimicking traversals: names shaped like what the slot normally carries
+		if s.r.Intn(5) < 2 {
+			hn = mimicName(s.r, hostile)
 		}
 		enc = encodings[s.r.Intn(len(encodings))]
 		rec.Hostile, rec.NameID, rec.Encoding = hostile, hn.id, enc
@@ -1077,7 +1220,7 @@ func TestC11(t *testing.T) {
 	run := ev.Start(t, "C11", "exploration",
 		"PRNG-generated HTTP requests sent as raw request lines to the real build-index tag server, origin blob server, agent server and proxy "+
 			"servers (child process under strace %file): route x parameter slot x hostile name (dot segments, absolute paths, NUL, long, sidecar names, "+
-			"sibling-store names, ...) x encoding (raw, escaped, full percent upper/lower, double, dots-only, slash-only, mixed), plus valid controls "+
+			"sibling-store names, and PRNG-built format-mimicking traversals: uuid-shaped, 64-hex-shaped, identifier plus traversal affix, sidecar shapes) x encoding (raw, escaped, full percent upper/lower, double, dots-only, slash-only, mixed), plus valid controls "+
 			"and stateful upload/tag sequences. A case is one request; it is non-trivial when the router matched a route and a kraken handler ran (bracket sentinels seen); "+
 			"distinct = distinct (component, route, hostile slot, name, encoding).")
 	defer run.Finish()
@@ -1094,7 +1237,7 @@ func TestC11(t *testing.T) {
 	// shares: origin and build-index carry the client-named stores
 	per := func(f float64) int { return int(float64(total) * f) }
 	var plans []plan
-	chunks := run.N(2, 8)
+	chunks := run.N(3, 8)
 	for i := 0; i < chunks; i++ {
 		plans = append(plans,
 			plan{"buildindex", per(0.20) / chunks, false},
@@ -1105,7 +1248,7 @@ func TestC11(t *testing.T) {
 		)
 	}
 	var wg sync.WaitGroup
-	sem := make(chan struct{}, 6)
+	sem := make(chan struct{}, 12)
 	for i, p := range plans {
 		wg.Add(1)
 		go func(i int, p plan) {
